@@ -1,0 +1,6 @@
+//go:build !verif
+
+package eventloop
+
+// verifPoint marks a yield point for the verification harness; without the build tag "verif" it does nothing.
+func verifPoint(*EventLoop, string, interface{}) {}
